@@ -292,13 +292,15 @@ func consDetail(cs []string) string {
 	return strings.Join(keep, "+")
 }
 
-// libView is the abstract value the library really holds after construction (the VM library
-// NFC-normalises strings when it builds them; the round trip is judged against that).
+// libView is the abstract value the library really holds after construction (both libraries
+// NFC-normalise strings when they build them; the round trip is judged against that).
 func libView(lib string, v vu.Val) vu.Val {
 	if lib == "vm" {
 		if b, err := vu.FromVM(*vu.ToVM(v)); err == nil {
 			return b
 		}
+	} else if b, err := vu.FromTree(*vu.ToTree(v)); err == nil {
+		return b
 	}
 	return v
 }
@@ -331,7 +333,7 @@ func (j *judge) json() {
 			continue
 		}
 		ref, rerr := refFromJSON(raw, t)
-		if rerr != nil || !vu.StructEq(ref, held) {
+		if rerr != nil || !structEq(ref, held) {
 			j.fail(lib, "text-wrong", detail, "to_json of %s is %s, which under %s denotes %s (%v)", v, clip(text, 200), t.Src(), ref, rerr)
 		}
 		// (b) parsing back under the type yields an equal value
@@ -349,7 +351,7 @@ func (j *judge) json() {
 				j.fail(lib, "roundtrip-failed:"+mode, detail, "parsing %s back under %s failed: %v", clip(text, 200), t.Src(), err)
 			case rejected != "":
 				j.fail(lib, "roundtrip-rejected:"+mode, detail, "%s serialises to %s, which is rejected when parsed back under %s (%s): %s", v, clip(text, 200), t.Src(), mode, clip(rejected, 200))
-			case !vu.StructEq(back, held):
+			case !structEq(back, held):
 				j.fail(lib, "roundtrip-differs:"+mode, detail, "%s serialises to %s, which parses back under %s (%s) as %s", v, clip(text, 200), t.Src(), mode, back)
 			default:
 				j.nontrivial = true
@@ -369,7 +371,7 @@ func (j *judge) json() {
 				j.fail(lib, "go-typed-panic", normMsg(err.Error()), "MarshalValue -> TypeAwareUnmarshalValue of %s under %s panicked: %v", v, t.Src(), err)
 			case err != nil:
 				j.fail(lib, "go-typed-failed", detail, "MarshalValue -> TypeAwareUnmarshalValue of %s under %s failed: %v", v, t.Src(), err)
-			case !vu.StructEq(back, held):
+			case !structEq(back, held):
 				j.fail(lib, "go-typed-differs", detail, "MarshalValue -> TypeAwareUnmarshalValue of %s under %s yields %s", v, t.Src(), back)
 			default:
 				j.cov("vm:go-typed-ok")
